@@ -244,6 +244,9 @@ def run(ck):
             try:
                 ps = it.instantiate(PS, [list(run0.context_results)], {}, None)
                 if agg:
+                    if inc is None and exc is None:
+                        # a frame saved before the roll-up was computed must not be what a later save() hands back
+                        it.call(it.getattr(ps, 'save', None), [], dict(write_data=wd, write_axes=wa, include=inc, exclude=exc), None)
                     it.call(it.getattr(ps, 'compute_aggregate', None), [], {}, None)
                 df = it.call(it.getattr(ps, 'save', None), [], dict(write_data=wd, write_axes=wa, include=inc, exclude=exc), None)
             except AbsRaise as e:
